@@ -64,7 +64,7 @@ PRIMES = [2.5, 3.25, 5.125, 7.5, 11.25, 13.125, 17.5, 19.25, 23.125, 29.5,
 NAMINGS = ["u", "own", "dup", "auto", "short", "dup0", "dup1"]
 NAMINGS_SHORT = ["u", "dup", "short"]
 WRAPS = ["b", "mul", "addq", "addb", "cplx", "sqrt", "dict", "mulS", "sqrtN",
-         "xr", "rsub"]
+         "xr", "rsub", "dictnum"]
 MAXVIOL = 3                  # violation records kept per check per case
 
 # --------------------------------------------------------------------------
@@ -174,7 +174,7 @@ def _sites(sname):
 def _wrap_ok(cls, w):
     if w in ("cplx",):
         return cls == "n"
-    if w in ("dict", "xr"):
+    if w in ("dict", "xr", "dictnum"):
         return cls in ("n", "ch")
     return True
 
@@ -584,6 +584,12 @@ def _build(p):
         elif w == "dict":
             e = {"red": P, "green": default}
             f = (lambda v, k=k, d=default: {"red": v[k], "green": d})
+            u = {k}
+        elif w == "dictnum":
+            # channels labelled by numbers (HoloPy's own labels for a plain
+            # list of wavelengths; integer labels)
+            e = {0.66: P, 1: default}
+            f = (lambda v, k=k, d=default: {0.66: v[k], 1: d})
             u = {k}
         elif w == "xr":
             # a labelled array over the channels, labels NOT in sorted order
